@@ -35,6 +35,10 @@ Theorem c09_p1_dof_count : 1 <= p1_selected_count g sup incl trunc ->
   ndofs p1s = p1_selected_count g sup incl trunc.
 Proof. apply p1_dof_count; [apply Hg | exact Hs | apply Hg]. Qed.
 
+Theorem c09_p1_full_multipliers x : sup x = true -> (forall k, k < 3 -> sel g sup incl (elems g x k) = true) ->
+  supp p1s x = true /\ forall k, k < 3 -> mult p1s x k = 1%Z.
+Proof. apply p1_full_multipliers; [apply Hg | exact Hs]. Qed.
+
 Let rws := rwg_space g sup incl trunc.
 Let edge_dof := rE (rwg_loop1 g sup incl trunc).
 Let fin_support := rS (rwg_loop1 g sup incl trunc).
